@@ -50,6 +50,9 @@ CONSTRAINTS = {
     "infeasible-nonlinear": (("cmp", "<=", add(sq(X), sq(Y)), c(-1)),),
     "nonlinear-active": (("cmp", "<=", add(sq(X), sq(Y)), c(1)),),
     "two-ineq": (("cmp", ">=", X, c(0.5)), ("cmp", "<=", add(X, mul(c(2), Y)), c(3))),
+    # single-variable linear rows ("bound constraints") that are LOOSER than, or beyond, the declared bounds of the menus
+    "loose-single-variable-rows": (("cmp", ">=", X, c(0.5)), ("cmp", "<=", Y, c(50)), ("cmp", ">=", mul(c(-2), Y), c(-100))),
+    "single-variable-row-beyond-bound": (("cmp", ">=", X, c(6)),),
 }
 BOUNDS = {
     "none": (),
